@@ -4,6 +4,7 @@ import (
 	"encoding/json"
 	"fmt"
 	"sort"
+	"strings"
 	"sync"
 
 	"github.com/trustbloc/sidetree-core-go/pkg/api/operation"
@@ -118,7 +119,7 @@ func minInt(a, b int) int {
 }
 
 func checkC19(c *hx.Ctx) {
-	c.Rule("generated internal documents (0-6 keys over every verification-method type x purpose subset permitted by the type table, JWK or base58 material, Ed25519 2018/2020 re-encoding, 0-4 services with string / list / object endpoints and extra members, aliases, custom members), random resolution models (commitments present/absent, anchor origins of several JSON shapes, deactivated, version id, created/updated times, operation lists) and transformer options (base, 0-6 method contexts, operation-list flags, published flag, canonical/equivalent ids); each transformer instance serves many documents and EVERY result is re-checked after all later transformations (also from concurrent goroutines) against an independent projection; a slice goes through DocumentHandler.ResolveDocument; non-trivial = document with >= 1 key or service; distinct = distinct (document, options)")
+	c.Rule("generated internal documents (0-6 keys over every verification-method type x purpose subset permitted by the type table, JWK or base58 material, Ed25519 2018/2020 re-encoding, 0-4 services with string / list / object endpoints and extra members, aliases, custom members), random resolution models (commitments present/absent, anchor origins of several JSON shapes, deactivated, version id, created/updated times, operation lists) and transformer options (base, 0-6 method contexts, operation-list flags, published flag, canonical/equivalent ids); each transformer instance serves many documents and EVERY result is re-checked after all later transformations (also from concurrent goroutines) against an independent projection; a slice goes through DocumentHandler.ResolveDocument (anchored DIDs, and long forms of unregistered DIDs through handlers with label / domain options: id, short-form equivalent ids, unpublished); non-trivial = document with >= 1 key or service; distinct = distinct (document, options)")
 	nTransf := c.N(700, 12000)
 	perTransf := 20
 	root := c.Rng("cases")
@@ -407,6 +408,66 @@ func checkC19(c *hx.Ctx) {
 			c.Count("resolved_through_handler_with_equivalent_references")
 		}
 		c.Count("resolved_through_handler")
+		// the same create as the long form of a DID that is not registered anywhere, through handlers configured with the rarely
+		// used label / domain options: the document id is the requested DID, the metadata says "not published", has no canonical
+		// id and lists as equivalent ids the SHORT forms only: <ns>[:<label>]:<suffix> and, with a domain, the form with the
+		// domain hint (<ns>:<domain>:<label>:<suffix>, or the labelled form again when the label already carries the domain)
+		if i%2 == 1 {
+			var tree map[string]interface{}
+			if json.Unmarshal(cr.Req, &tree) != nil {
+				return
+			}
+			seg := ref.B64(ref.MustJCS(map[string]interface{}{"suffixData": tree["suffixData"], "delta": tree["delta"]}))
+			domain := "https:dom.example"
+			for ci, cfg := range []struct{ label, domain string }{{"", ""}, {"interim", ""}, {"interim", domain}, {domain + ":interim", domain}, {"", domain}} {
+				var hopts []dochandler.Option
+				if cfg.label != "" {
+					hopts = append(hopts, dochandler.WithLabel(cfg.label))
+				}
+				if cfg.domain != "" {
+					hopts = append(hopts, dochandler.WithDomain(cfg.domain))
+				}
+				dhU := dochandler.New(hx.Namespace, nil, pc, &hx.RecWriter{}, processor.New("verif", hx.NewOpStore(), pc), hx.NopMetrics{}, hopts...)
+				short := hx.Namespace + ":" + d.Suffix
+				if cfg.label != "" {
+					short = hx.Namespace + ":" + cfg.label + ":" + d.Suffix
+				}
+				want := []interface{}{short}
+				if cfg.label != "" && cfg.domain != "" {
+					if strings.Contains(cfg.label, cfg.domain) {
+						want = append(want, short)
+					} else {
+						want = append(want, hx.Namespace+":"+cfg.domain+":"+cfg.label+":"+d.Suffix)
+					}
+				}
+				long := short + ":" + seg
+				c.Eval()
+				res, err := dhU.ResolveDocument(long)
+				rp := map[string]interface{}{"did": long, "label": cfg.label, "domain": cfg.domain}
+				if err != nil {
+					c.Violation("C19 long form of a valid, unregistered create does not resolve: "+err.Error(), rp)
+					return
+				}
+				got, _ := roundTrip(res).(map[string]interface{})
+				doc, _ := got["didDocument"].(map[string]interface{})
+				md, _ := got["didDocumentMetadata"].(map[string]interface{})
+				method, _ := md["method"].(map[string]interface{})
+				rp["result"] = got
+				if doc == nil || doc["id"] != long {
+					c.Violation(fmt.Sprintf("C19 long-form resolution (handler configuration %d): document id is %v, requested DID %s", ci, doc["id"], trunc600(long)), rp)
+					return
+				}
+				if a, b := string(ref.MustJCS(md["equivalentId"])), string(ref.MustJCS(want)); a != b {
+					c.Violation(fmt.Sprintf("C19 long-form resolution (label %q, domain %q): equivalent ids are not the short forms of the DID\n   got:      %s\n   expected: %s", cfg.label, cfg.domain, trunc600(a), b), rp)
+					return
+				}
+				if _, has := md["canonicalId"]; has || method == nil || method["published"] != false {
+					c.Violation(fmt.Sprintf("C19 long-form resolution of an unregistered DID: canonical id present (%v) or not reported as unpublished (%v)", has, method["published"]), rp)
+					return
+				}
+				c.Count("long_form_resolved_through_configured_handler")
+			}
+		}
 	})
 	for _, t := range keyTypeTable {
 		c.Floor("key_type:"+t.Type, 20)
@@ -415,6 +476,7 @@ func checkC19(c *hx.Ctx) {
 	c.Floor("material:jwk", 100)
 	c.Floor("rechecked_after_later_calls", 1000)
 	c.Floor("resolved_through_handler", 50)
+	c.Floor("long_form_resolved_through_configured_handler", 100)
 	c.Floor("published_dids_with_a_pending_operation", 20)
 	c.Floor("models_with_repeated_published_operations", 20)
 	c.Floor("resolved_through_handler_with_equivalent_references", 20)
